@@ -778,6 +778,10 @@ class CSSSerializer:
                 # save new reference
                 self._selectors.append(rule.selectorList)
                 self._selectorlevel = 0
+        elif self._selectors or self._selectorlevel:
+            # preference switched off again: forget the nesting state
+            self._selectors = []
+            self._selectorlevel = 0
 
         # TODO ^ RESOLVE!!!!
 
